@@ -26,7 +26,11 @@ K_ARIAS = math.pi / (2 * 9.81)
 
 
 def _rec(rng, n):
-    kind = rng.choice(['dy5', 'dy5', 'small', 'spike', 'int', 'plateau', 'zero'])
+    kind = rng.choice(['dy5', 'dy5', 'small', 'spike', 'int', 'plateau', 'zero', 'thr', 'thr'])
+    if kind == 'thr':
+        # amplitudes just below / between / above the thresholds 0.01, 0.05, 0.1 times 9.8 (and times 9.81), on the grid 2^-20 (exact)
+        near = [0.0979, 0.09805, 0.0982, 0.4899, 0.49025, 0.4906, 0.9799, 0.9805, 0.9811, 0.0, 0.03125, 1.25]
+        return [rng.choice([-1, 1]) * round(rng.choice(near) * 2**20) / 2**20 for _ in range(n)]
     if kind == 'dy5':
         return [rng.randint(-48, 48) / 32 for _ in range(n)]
     if kind == 'small':
